@@ -367,7 +367,34 @@ func generate(rng *rand.Rand, steps int, profile string) ([]string, []string, ma
 				continue
 			}
 			g.snapN++
-			if profile == "rebuildreal" {
+			if profile == "rebuildreal" && rng.Intn(2) == 0 {
+				// a replica leaves now and comes back later with its old directory: only what the source
+				// wrote in between has to be transferred (nothing is deleted or reclaimed in between)
+				if len(g.chain()) > 0 && rng.Intn(2) == 0 {
+					ch := g.chain()
+					g.do("ckpt volume-snap-" + ch[rng.Intn(len(ch))].name + ".img") // as the controller records it
+				}
+				g.do("close")
+				g.do("stash")
+				g.do("open p")
+				g.do("mode RW")
+				for k := 0; k < 1+rng.Intn(4); k++ {
+					switch rng.Intn(5) {
+					case 0:
+						g.snapN++
+						g.do(fmt.Sprintf("snap s%d %s", g.snapN, []string{"u", "a"}[rng.Intn(2)]))
+					case 1:
+						g.do("reopen " + pn(rng))
+						g.do("mode RW")
+					default:
+						g.write(rng)
+					}
+				}
+				g.snapN++
+				g.do(fmt.Sprintf("rbbegin r%d stale real", g.snapN))
+				g.feat["rebuild-real-agents"] = true
+				g.feat["rejoin-with-old-directory"] = true
+			} else if profile == "rebuildreal" {
 				g.do(fmt.Sprintf("rbbegin r%d real", g.snapN))
 				g.feat["rebuild-real-agents"] = true
 			} else {
